@@ -4,11 +4,12 @@
 //! no behaviour of its own: it lets an external harness observe or pin the random draws of the
 //! sampled solvers, call the multi-threaded solvers with an explicit task target, call the private
 //! categorical sampler with a chosen uniform variate, and read the compact game representation.
-use crate::solve::{external, vanilla, Multinomial};
+use crate::solve::{external, vanilla, Multinomial, SampledChance};
 use crate::{Game, Node, PlayerNum, RegretBound, RegretParams, SolveError, SolveMethod, Strategies};
 use rand::RngCore;
 use rand_distr::Distribution;
 use std::cell::RefCell;
+use std::collections::VecDeque;
 use std::fmt;
 use std::num::NonZeroUsize;
 use std::sync::Arc;
@@ -36,10 +37,11 @@ pub struct Key {
 
 /// The harness side of a sampling session
 pub trait Decider: Send + Sync {
-    /// Return `Some(index)` to replace the production draw, `None` to let it happen
+    /// Return `Some(index)` to steer the production draw to `index` (by scripting the variates its
+    /// random number generator returns), `None` to let it draw freely
     fn decide(&self, key: Key, weights: &[f64]) -> Option<usize>;
-    /// Called with the result of a production draw that was not replaced
-    fn observe(&self, key: Key, weights: &[f64], result: usize);
+    /// Called after every production draw with what was asked for and what the sampler returned
+    fn observe(&self, key: Key, weights: &[f64], intended: Option<usize>, result: usize);
 }
 
 struct Session {
@@ -49,6 +51,7 @@ struct Session {
 
 thread_local! {
     static SESSION: RefCell<Option<Session>> = const { RefCell::new(None) };
+    static SCRIPT: RefCell<VecDeque<u64>> = const { RefCell::new(VecDeque::new()) };
 }
 
 struct Restore(Option<Session>);
@@ -73,6 +76,62 @@ pub fn with_session<R>(decider: Arc<dyn Decider>, func: impl FnOnce() -> R) -> R
     func()
 }
 
+/// Stand-in for [rand::thread_rng] at the sampling sites: returns the scripted words of this
+/// thread first (one per call, whatever the width), then delegates to the real generator
+pub fn thread_rng() -> ScriptedRng {
+    ScriptedRng(rand::thread_rng())
+}
+
+/// See [thread_rng]
+pub struct ScriptedRng(rand::rngs::ThreadRng);
+
+impl RngCore for ScriptedRng {
+    fn next_u32(&mut self) -> u32 {
+        match SCRIPT.with(|s| s.borrow_mut().pop_front()) {
+            Some(word) => word as u32,
+            None => self.0.next_u32(),
+        }
+    }
+
+    fn next_u64(&mut self) -> u64 {
+        match SCRIPT.with(|s| s.borrow_mut().pop_front()) {
+            Some(word) => word,
+            None => self.0.next_u64(),
+        }
+    }
+
+    fn fill_bytes(&mut self, dest: &mut [u8]) {
+        self.0.fill_bytes(dest)
+    }
+
+    fn try_fill_bytes(&mut self, dest: &mut [u8]) -> Result<(), rand::Error> {
+        self.0.try_fill_bytes(dest)
+    }
+}
+
+/// Script the next words [thread_rng] returns on this thread (replacing any left over)
+pub fn script_rng(words: &[u64]) {
+    SCRIPT.with(|s| {
+        let mut script = s.borrow_mut();
+        script.clear();
+        script.extend(words.iter().copied());
+    });
+}
+
+/// The words that make `WeightedAliasIndex` (rand_distr 0.4 on rand 0.8) over `num` outcomes pick
+/// table column `column` and compare `coin * 2^-52 * total` with that column's own odds
+pub fn alias_words(num: usize, column: usize, coin: u64) -> [u64; 2] {
+    // Uniform<u32>: v = next_u32(); index = (v * num) >> 32
+    let first = ((column as u64) << 32).div_ceil(num as u64);
+    // Uniform<f64>: mantissa = next_u64() >> 12
+    [first, coin << 12]
+}
+
+/// The word that makes `rng.gen::<f64>()` (rand 0.8) return `mantissa * 2^-53`
+pub fn unit_word(mantissa: u64) -> u64 {
+    mantissa << 11
+}
+
 /// Per-site hook state, embedded in `SampledChance` and `CachedInfoset`
 pub struct Site {
     decider: Option<Arc<dyn Decider>>,
@@ -80,6 +139,7 @@ pub struct Site {
     id: usize,
     pass: u64,
     weights: Option<Box<[f64]>>,
+    intended: Option<usize>,
 }
 
 impl fmt::Debug for Site {
@@ -107,6 +167,15 @@ impl Site {
             id,
             pass: 0,
             weights: weights.map(|w| w.into()),
+            intended: None,
+        }
+    }
+
+    fn key(&self) -> Key {
+        Key {
+            kind: self.kind,
+            id: self.id,
+            pass: self.pass,
         }
     }
 
@@ -115,26 +184,34 @@ impl Site {
         self.pass += 1;
     }
 
-    /// Observe or replace one production draw
-    pub fn draw(&self, weights: Option<&[f64]>, production: impl FnOnce() -> usize) -> usize {
-        match &self.decider {
-            None => production(),
-            Some(decider) => {
-                let weights = weights.or(self.weights.as_deref()).unwrap_or(&[]);
-                let key = Key {
-                    kind: self.kind,
-                    id: self.id,
-                    pass: self.pass,
-                };
-                match decider.decide(key, weights) {
-                    Some(ind) => ind,
-                    None => {
-                        let res = production();
-                        decider.observe(key, weights, res);
-                        res
+    /// Called immediately before the production draw: asks the decider and, if it wants a
+    /// particular outcome, scripts the generator so that a correct sampler over `weights` returns it
+    pub fn before_draw(&mut self, weights: Option<&[f64]>) {
+        self.intended = None;
+        if let Some(decider) = &self.decider {
+            let weights = weights.or(self.weights.as_deref()).unwrap_or(&[]);
+            self.intended = decider.decide(self.key(), weights);
+            if let Some(ind) = self.intended {
+                match self.kind {
+                    Kind::Chance => script_rng(&alias_words(weights.len(), ind, 0)),
+                    Kind::Player => {
+                        // middle of the `ind`-th cumulative interval
+                        let before: f64 = weights[..ind].iter().sum();
+                        let variate = before + weights[ind] / 2.0;
+                        let mantissa = (variate * (1u64 << 53) as f64) as u64;
+                        script_rng(&[unit_word(mantissa.min((1 << 53) - 1))]);
                     }
                 }
             }
+        }
+    }
+
+    /// Called immediately after the production draw with its result
+    pub fn after_draw(&mut self, weights: Option<&[f64]>, result: usize) {
+        if let Some(decider) = &self.decider {
+            script_rng(&[]);
+            let weights = weights.or(self.weights.as_deref()).unwrap_or(&[]);
+            decider.observe(self.key(), weights, self.intended.take(), result);
         }
     }
 }
@@ -212,6 +289,16 @@ impl RngCore for FixedBits {
 /// `mantissa * 2^-53` (`mantissa < 2^53`)
 pub fn multinomial_index(probs: &[f64], mantissa: u64) -> usize {
     Multinomial::new(probs).sample(&mut FixedBits(mantissa << 11))
+}
+
+/// The outcome the production chance sampler built from `probs` returns when its alias table is
+/// asked for column `column` with a coin of `coin * 2^-52` (`coin < 2^52`)
+pub fn chance_sample_scripted(probs: &[f64], column: usize, coin: u64) -> usize {
+    let mut chance = SampledChance::new(probs);
+    script_rng(&alias_words(probs.len(), column, coin));
+    let res = chance.sample();
+    script_rng(&[]);
+    res
 }
 
 /// A node of the compact tree
